@@ -514,7 +514,7 @@ func defineFieldMap(ttype Named, fieldMap Fields) (FieldDefinitionMap, error) {
 			continue
 		}
 		err = invariantf(
-			field.Type != nil && IsOutputType(field.Type),
+			!isNullish(field.Type) && IsOutputType(field.Type),
 			`%v.%v field type must be Output Type but got: %v.`, ttype, fieldName, field.Type,
 		)
 		if err != nil {
@@ -547,7 +547,7 @@ func defineFieldMap(ttype Named, fieldMap Fields) (FieldDefinitionMap, error) {
 				return resultFieldMap, err
 			}
 			if err = invariantf(
-				arg.Type != nil && IsInputType(arg.Type),
+				!isNullish(arg.Type) && IsInputType(arg.Type),
 				`%v.%v(%v:) argument type must be Input Type but got: %v.`, ttype, fieldName, argName, arg.Type,
 			); err != nil {
 				return resultFieldMap, err
@@ -1177,7 +1177,7 @@ func (gt *InputObject) defineFieldMap() InputObjectFieldMap {
 			continue
 		}
 		if gt.err = invariantf(
-			fieldConfig.Type != nil && IsInputType(fieldConfig.Type),
+			!isNullish(fieldConfig.Type) && IsInputType(fieldConfig.Type),
 			`%v.%v field type must be Input Type but got: %v.`, gt, fieldName, fieldConfig.Type,
 		); gt.err != nil {
 			return resultFieldMap
